@@ -639,7 +639,94 @@ def check_case(case):
         return check_formula(case)
     if case['k'] == 'wb':
         return check_wb(case)
+    if case['k'] == 'rbfrac':
+        return check_rbfrac(case)
+    if case['k'] == 'diamond':
+        return check_diamond(case)
     raise ValueError(case['k'])
+
+
+# ----------------------------------------------------------------------------
+# added after the seeded changes c13-a / c13-b were missed by the quick tier
+# ----------------------------------------------------------------------------
+def check_rbfrac(case):
+    """RANDBETWEEN with fractional / negative bounds: every draw is an integer n with ceil(lo) <= n <= floor(hi),
+    or #NUM! when no integer lies between the bounds.  Bounds as literals and as cell values."""
+    import math
+    lo, hi, n = case['lo'], case['hi'], case.get('n', 30)
+    a, b = math.ceil(lo), math.floor(hi)
+    fails = []
+    lit = lambda x: ('(%r)' % x) if x < 0 else repr(x)
+    models = {
+        'lit': sut.ExcelModel().from_dict({"'[b.xlsx]S'!A1": '=RANDBETWEEN(%s,%s)' % (lit(lo), lit(hi))}),
+        'ref': sut.ExcelModel().from_dict({"'[b.xlsx]S'!A1": "=RANDBETWEEN('[b.xlsx]S'!B1,'[b.xlsx]S'!B2)", "'[b.xlsx]S'!B1": lo, "'[b.xlsx]S'!B2": hi}),
+    }
+    seen = {}
+    state = sut.np.random.get_state()
+    sut.np.random.seed(int(case.get('rs', 7)) % (2 ** 32))
+    for how, m in models.items():
+        for i in range(n):
+            sol = m.calculate()
+            v = sut.one(sol["'[b.xlsx]S'!A1"])
+            seen.setdefault(how, set()).add(repr(v))
+            if a > b:
+                if v != sut.Err('#NUM!'):
+                    fails.append(('range|RANDBETWEEN:frac-%s|no-integer-between' % how, 'RANDBETWEEN(%r,%r) -> %r, expected #NUM! (no integer between the bounds)' % (lo, hi, v)))
+                    break
+                continue
+            if not isinstance(v, float) or v != int(v):
+                fails.append(('integer|RANDBETWEEN:frac-%s' % how, 'RANDBETWEEN(%r,%r) -> %r, not an integer' % (lo, hi, v)))
+                break
+            if not a <= v <= b:
+                fails.append(('range|RANDBETWEEN:frac-%s|outside' % how, 'RANDBETWEEN(%r,%r) -> %r, outside [%d,%d]' % (lo, hi, v, a, b)))
+                break
+        if a < b and len(seen.get(how, ())) == 1 and b - a >= 5 and n >= 20:
+            fails.append(('frozen|RANDBETWEEN:frac-%s' % how, 'RANDBETWEEN(%r,%r): %d calculations all gave %s' % (lo, hi, n, seen[how])))
+    sut.np.random.set_state(state)
+    return R(fails, nt=(lo != int(lo) or hi != int(hi) or lo < 0), n=2 * n, labels=['rbfrac', 'rbfrac:neg' if hi < 0 else 'rbfrac:pos'])
+
+
+def check_diamond(case):
+    """Re-converging dependents of a volatile cell through ExcelModel.compile: every returned cell must agree with its
+    own formula applied to the values returned in the same call, on every call, with the clock advanced in between."""
+    import datetime
+    shape = case['shape']
+    Q = "'[b.xlsx]S'!"
+    d = {Q + 'A1': '=NOW()', Q + 'Z1': 1.0}
+    forms = {
+        'diamond': {'A2': ('A1', 1.0, None), 'A3': ('A1', 0.0, 'A2'), 'A4': ('A2', 0.0, 'A2')},
+        'chain-fan': {'A2': ('A1', 2.0, None), 'A3': ('A2', 1.0, None), 'A4': ('A2', 0.0, 'A3'), 'A5': ('A1', 0.0, 'A4')},
+        'late-join': {'A2': ('A1', 0.5, None), 'A3': ('A2', 0.0, 'A1'), 'A4': ('A3', 0.0, 'A2'), 'A5': ('A2', 3.0, None)},
+    }[shape]
+    for k, (x, c, y) in forms.items():
+        d[Q + k] = '=%s%s+%r%s' % (Q, x, c, ('+' + Q + y) if y else '')
+    fails = []
+    t = datetime.datetime(2021, 3, 4, 10, 0, 0)
+    with Patched(11):
+        CLOCK.set_now(t)
+        m = sut.ExcelModel().from_dict(d)
+        outs = [Q.upper() + k for k in ['A1'] + sorted(forms)]
+        nodes = {str(k).upper(): k for k in m.dsp.data_nodes if isinstance(k, str)}
+        func = m.compile([nodes[Q.upper() + 'Z1']], [nodes[o] for o in outs])
+        prev = None
+        for i in range(4):
+            t = t + datetime.timedelta(hours=5, minutes=7 * (i + 1))
+            CLOCK.set_now(t)
+            res = func(float(i))
+            vals = dict(zip(['A1'] + sorted(forms), [sut.one(r) for r in res]))
+            for k, (x, c, y) in forms.items():
+                exp = vals[x] + c + (vals[y] if y else 0.0)
+                if not (isinstance(vals[k], float) and abs(vals[k] - exp) < 1e-9):
+                    fails.append(('snapshot|NOW|compile:indep|%s' % shape, 'call %d: %s = %r but its formula over the same call gives %r' % (i + 1, k, vals[k], exp)))
+            if prev is not None and vals['A1'] == prev:
+                fails.append(('frozen|NOW|compile:indep|%s' % shape, 'call %d: NOW() did not move' % (i + 1)))
+            prev = vals['A1']
+    seen, out = set(), []
+    for s_, d_ in fails:
+        if s_ not in seen:
+            seen.add(s_)
+            out.append((s_, d_))
+    return R(out, nt=True, n=4, labels=['diamond:' + shape])
 
 
 # ----------------------------------------------------------------------------
@@ -973,4 +1060,8 @@ def parts(tier, seed):
         ('enum', 'grid', _grid(tier), 40, not q),
         ('hyp', 'formula', 1440 if q else 40000),
         ('hyp', 'workbook', 400 if q else 12000),
+        ('enum', 'rb-fractional', [{'k': 'rbfrac', 'lo': lo, 'hi': hi, 'n': 30 if q else 200, 'rs': seed}
+                                   for lo, hi in [(-3.5, -1.5), (-7.9, -7.1), (-0.5, -0.2), (0.2, 3.7), (1.5, 9.5), (-9.5, 9.5), (-2.0, -1.0),
+                                                  (2.5, 2.9), (-10.25, -0.75), (0.0, 0.9), (-1.5, 1.5), (3.0, 3.0), (-4.5, -4.5)]], 2, False),
+        ('enum', 'diamonds', [{'k': 'diamond', 'shape': sh_} for sh_ in ('diamond', 'chain-fan', 'late-join')], 1, False),
     ]
